@@ -90,6 +90,37 @@ func VH_spell(a []string) {
 	vAssert(vIff(r1, r2), "spellings-interchangeable")
 }
 
+// VH_spellCtx [pair op exc py]: the two spellings inside a compound expression
+// "S op X WITH e" against the two-entry allowed list [Y, Y WITH e]; X and Y range over every
+// listed id (an AND group / OR alternatives with two members of one family, one of them
+// carrying an exception, matched by two different allowed entries).
+func VH_spellCtx(a []string) {
+	pair, op, exc, py := a[0], a[1], a[2], a[3]
+	ids := vTableIDs()
+	x := ids[vPickInt(0, len(ids)-1, "x")]
+	s1, s2 := x+"+", x+"-or-later"
+	if pair == "only" {
+		s1, s2 = x, x+"-only"
+	}
+	vAssume(vValid(s1))
+	vAssume(vValid(s2))
+	t := x + " WITH " + exc
+	y := ids[vPickInt(0, len(ids)-1, "y")]
+	if py == "1" {
+		y += "+"
+	}
+	e1, e2 := s1+" "+op+" "+t, s2+" "+op+" "+t
+	allowed := []string{y, y + " WITH " + exc}
+	vNote("text", "Satisfies("+vShow(e1)+" vs "+vShow(e2)+", "+vShowList(allowed)+")")
+	r1, err1 := Satisfies(e1, allowed)
+	r2, err2 := Satisfies(e2, allowed)
+	vAssert(vIff(err1 == nil, err2 == nil), "same-validity")
+	vAssert(vIff(r1, r2), "spellings-interchangeable")
+	// and with the roles of the two entries exchanged in the list
+	r3, err3 := Satisfies(e1, []string{allowed[1], allowed[0]})
+	vAssert(vAnd(err3 == nil, vIff(r1, r3)), "spellings-interchangeable")
+}
+
 // VH_bothValid [pair]: for every ACTIVE id both spellings of the pair are valid.
 func VH_bothValid(a []string) {
 	act := spdxlicenses.GetLicenses()
